@@ -213,6 +213,25 @@ fn main() {
             writeln!(ora, "property=C18 the standard table has {} keys the catalogue does not cover (cannot be checked against the compiler): {:?}", missing.len(), &missing[..missing.len().min(5)]).unwrap();
         }
     }
+    // a table loaded from a map answers what was registered under the key, through both entry points (the registered name may
+    // differ from the key: the `Vec < () >` placeholder standing for `Vec < MyStruct >`)
+    {
+        use truc::record::type_resolver::{DynamicTypeInfo, TypeInfo};
+        let mut map: std::collections::BTreeMap<String, DynamicTypeInfo> = Default::default();
+        map.insert("Vec < () >".into(), DynamicTypeInfo { info: TypeInfo { name: "Vec < MyStruct >".into(), size: 24, align: 8 }, allow_uninit: false });
+        map.insert("u64".into(), DynamicTypeInfo { info: TypeInfo { name: "crate :: Nanos".into(), size: 8, align: 8 }, allow_uninit: true });
+        map.insert("u8".into(), DynamicTypeInfo { info: TypeInfo { name: "u8".into(), size: 1, align: 1 }, allow_uninit: true });
+        let t5: StaticTypeResolver = map.clone().into();
+        tables += 3;
+        macro_rules! same { ($ty:ty, $key:expr) => { {
+            let want = &map[$key].info;
+            match catch(|| t5.type_info::<$ty>()) { Ok(a) => if &a != want { writeln!(ora, "property=C18 loaded table: typed lookup of {} answers {:?}, registered was {:?}", $key, a, want).unwrap(); }, Err(e) => writeln!(ora, "property=C18 loaded table: typed lookup of {} panics: {}", $key, e.replace('\n', " ")).unwrap() }
+            match catch(|| t5.dynamic_type_info($key)) { Ok(a) => if &a.info != want { writeln!(ora, "property=C18 loaded table: dynamic lookup of {} answers {:?}, registered was {:?}", $key, a.info, want).unwrap(); }, Err(e) => writeln!(ora, "property=C18 loaded table: dynamic lookup of {} panics: {}", $key, e.replace('\n', " ")).unwrap() }
+        } } }
+        same!(Vec<()>, "Vec < () >");
+        same!(u64, "u64");
+        same!(u8, "u8");
+    }
     // registering a type twice panics
     let dup = catch(|| { let mut x = StaticTypeResolver::new(); x.add_type::<u8>(); x.add_type::<u8>(); });
     if dup.is_ok() { writeln!(ora, "property=C18 registering a type twice is accepted").unwrap(); }
